@@ -12,54 +12,8 @@ Import ListNotations.
 From JB Require Import Constants Bytes Utf8 Num Value Codec Render Walk.
 Open Scope N_scope.
 
-(* ---- String::from_utf8_lossy (core::str::lossy::Utf8Chunks): every maximal invalid prefix of an ill-formed
-   sequence becomes U+FFFD; `safe_get` past the end reads 0, which is no continuation byte ---- *)
-Definition REPLACEMENT : list N := [239; 191; 189].
-Definition second3 (b0 b1 : N) : bool :=
-  if b0 =? 224 then in_rng 160 191 b1 else if b0 =? 237 then in_rng 128 159 b1 else cont b1.
-Definition second4 (b0 b1 : N) : bool :=
-  if b0 =? 240 then in_rng 144 191 b1 else if b0 =? 244 then in_rng 128 143 b1 else cont b1.
-
-Fixpoint lossy (bs : list N) : list N :=
-  match bs with
-  | [] => []
-  | b0 :: r =>
-      if b0 <? 128 then b0 :: lossy r
-      else if in_rng 194 223 b0 then
-        match r with
-        | b1 :: r1 => if cont b1 then b0 :: b1 :: lossy r1 else REPLACEMENT ++ lossy r
-        | [] => REPLACEMENT
-        end
-      else if in_rng 224 239 b0 then
-        match r with
-        | b1 :: r1 =>
-            if second3 b0 b1 then
-              match r1 with
-              | b2 :: r2 => if cont b2 then b0 :: b1 :: b2 :: lossy r2 else REPLACEMENT ++ lossy r1
-              | [] => REPLACEMENT
-              end
-            else REPLACEMENT ++ lossy r
-        | [] => REPLACEMENT
-        end
-      else if in_rng 240 244 b0 then
-        match r with
-        | b1 :: r1 =>
-            if second4 b0 b1 then
-              match r1 with
-              | b2 :: r2 =>
-                  if cont b2 then
-                    match r2 with
-                    | b3 :: r3 => if cont b3 then b0 :: b1 :: b2 :: b3 :: lossy r3 else REPLACEMENT ++ lossy r2
-                    | [] => REPLACEMENT
-                    end
-                  else REPLACEMENT ++ lossy r1
-              | [] => REPLACEMENT
-              end
-            else REPLACEMENT ++ lossy r
-        | [] => REPLACEMENT
-        end
-      else REPLACEMENT ++ lossy r
-  end.
+(* String::from_utf8_lossy is Utf8.lossy (REPLACEMENT, second3, second4, lossy): it is shared with the text branch of
+   Dispatch.to_string_m *)
 
 (* ---- escape_scalar_string(value, start, end, json) ----
    `for i in start..end { match value[i] {..} }`: the index expression panics exactly when start < end and
@@ -200,7 +154,11 @@ Section RenderWalk.
   Definition render_w : res (list N) := container_str_w (scalar_str_w (S (length V))) 0 0.
 End RenderWalk.
 
-(* to_string / to_pretty_string: `if container_to_string(..).is_err() { json.clear(); json.push_str("null") }` *)
+(* to_string / to_pretty_string: `if container_to_string(..).is_err() { json.clear(); json.push_str("null") }`.
+   An input that is not JSONB (first byte none of 0x80 / 0x40 / 0x20): `if value.is_empty() { "null" } else
+   { String::from_utf8_lossy(value) }`, in this order: every ill-formed UTF-8 sequence of the argument becomes U+FFFD
+   (to_string 22ff22 = 22efbfbd22); valid UTF-8 -- in particular every text that parses, TextBinProofs.parsed_text_is_utf8
+   -- is returned as it is (RenderWalkProofs.lossy_valid). *)
 Definition to_text_w (pf : N -> list N) (pretty : bool) (bs : list N) : res (list N) :=
   if is_jsonb bs then
     match render_w pf bs pretty with
@@ -208,7 +166,7 @@ Definition to_text_w (pf : N -> list N) (pretty : bool) (bs : list N) : res (lis
     | Err _ => Ok NULL_TEXT
     | Panic => Panic
     end
-  else match bs with [] => Ok NULL_TEXT | _ => Ok bs end.
+  else match bs with [] => Ok NULL_TEXT | _ => Ok (lossy bs) end.
 
 Definition to_string_w' (pf : N -> list N) : list N -> res (list N) := to_text_w pf false.
 Definition to_pretty_string_w' (pf : N -> list N) : list N -> res (list N) := to_text_w pf true.
